@@ -8,40 +8,56 @@ package spiffe
 // chdone[c] is the monotone ghost "channel c is known to be closed" (channels are never reopened): set where this
 // package closes a channel, and where a receive from a channel nobody sends on has returned.
 // initok is the monotone ghost "the initial fetch succeeded and its SVID was published": set by Run together with the
-// first store to currentSVID, never reset. Time is unixNano(t), a mathematical integer (libspec strings_time.spec).
+// first store to currentSVID, never reset. initfail is the monotone ghost "the initial fetch failed": set by Run where
+// it closes readyCh on the error path, never reset. Time is unixNano(t), a mathematical integer (strings_time.spec).
 //
 // Proved for all interleavings of lock-respecting goroutines (monitor rule on s.lock): the sequential laws below and
-// the lock discipline. The wait-order obligation C19.ready.nolock FAILS in GetX509SVID on the unchanged code: that is
-// the confirmed deadlock "consumer asks before Run has taken its lock" (replay template spiffeready).
+// the lock discipline. The wait-order obligation C19.ready.nolock (a goroutine that waits for readiness holds no lock
+// that Run needs) failed on the original GetX509SVID - the confirmed deadlock "consumer asks before Run has taken its
+// lock" (replay template spiffeready); it was repaired in /repo (commit 8c88822) and is discharged now; the original
+// body is kept as must-fail mutant canary-getsvid-waits-under-lock.
 // Wall-clock timeliness (when a timer channel delivers, how soon the rotation goroutine is scheduled) is outside this
 // technique family: the contracts state which duration is handed to the clock and what happens after a wake-up, not when.
+//
+// What rests on inspection and is NOT an obligation (audit Q6): nobody sends on readyCh (so a completed receive means
+// "closed"); chdone, initok and initfail are not lock-protected ghosts, i.e. each goroutine's knowledge of a monotone
+// global fact (they are never havocked; sound only because they are never reset and the lock invariants use them on
+// the left of an implication only). Only the goroutine that wins the CAS on `running` sets them ([C19.run.running]:
+// Run never resets `running`; runRotation is unexported and requires initok).
 
 //@ ghost var chdone [int]bool
 
 //@ type SPIFFE
 //@   ghost initok bool
+//@   ghost initfail bool
 //@   lock lock protects currentSVID
 //@   lockinv lock [C19.inv.notready] !chdone[self.readyCh] ==> self.currentSVID == nil
+//@   lockinv lock [C19.inv.failed] self.initfail ==> self.currentSVID == nil
 //@   lockinv lock [C19.inv.served] self.initok ==> self.currentSVID != nil
 //@   lockinv lock [C19.inv.chain] self.currentSVID != nil ==> (len(self.currentSVID.Certificates) > 0 && self.currentSVID.Certificates[0] != nil)
-//@   invariant [cfg] self.log != nil && self.clock != nil && (self.dir != nil ==> self.trustAnchors != nil)
+//@   invariant [cfg] self.log != nil && self.clock != nil && self.requestSVIDFn != nil && (self.dir != nil ==> self.trustAnchors != nil)
 
-// The caller-supplied signer: assumed to leave all memory reachable by this package alone and to return non-nil
-// certificates when it reports success.
+// The caller-supplied signer (RequestSVIDFn has no documentation): assumed to leave all memory reachable by this
+// package alone, to terminate, and not to call back into this SPIFFE object (Ready / GetX509SVID / Run): the initial
+// fetch runs under the write lock with readiness pending, a callback waiting for readiness would block for ever.
+// NOT assumed: that the certificates of a reported success are non-nil - the code checks it (a chain with a nil
+// entry is an error; before commit a0f825b it was a nil dereference under Run's write lock with readyCh open).
 //@ func functype github.com/dapr/kit/crypto/spiffe.RequestSVIDFn
 //@   skip
 //@   modifies nothing
-//@   ensures result1 == nil ==> (forall j :: 0 <= j && j < len(result) ==> result[j] != nil)
 
-// renewalTime: half of the validity period (for a validity within the range of time.Duration, ~292 years).
+// renewalTime: half of the validity period. Exact for a validity within the range of time.Duration (~292 years);
+// beyond it time.Time.Sub saturates and the result is earlier than half ("no later than" still holds).
 //@ func renewalTime
 //@   tags C19 C07
 //@   modifies nothing
 //@   ensures [C19.renewal.half] (0 <= unixNano(notAfter) - unixNano(notBefore) && unixNano(notAfter) - unixNano(notBefore) <= 9223372036854775807) ==> unixNano(result) == unixNano(notBefore) + (unixNano(notAfter) - unixNano(notBefore)) / 2
+//@   ensures [C19.renewal.nolater] 0 <= unixNano(notAfter) - unixNano(notBefore) ==> (unixNano(notBefore) <= unixNano(result) && unixNano(result) <= unixNano(notBefore) + (unixNano(notAfter) - unixNano(notBefore)) / 2)
 
-// GetX509SVID: a goroutine must not block on readyCh while holding the lock that Run needs in order to close it.
-// FAILS on the unchanged code (genuine defect, see header). After readiness: the SVID served is currentSVID as read
-// under the read lock, nil exactly when an error is returned.
+// GetX509SVID: a goroutine must not block on readyCh while holding the lock that Run needs in order to close it
+// ([C19.ready.nolock]; failed on the original code, see header). It returns only after readiness; the SVID served is
+// currentSVID as read under the read lock, nil exactly when an error is returned; the SVID if the initial fetch
+// succeeded, an error if it failed.
 //@ func (*svidSource).GetX509SVID
 //@   tags C19 C07
 //@   requires s != nil && s.spiffe != nil
@@ -49,26 +65,42 @@ package spiffe
 //@   ensures [C19.get.err] (result == nil) <==> (result1 != nil)
 //@   ensures [C19.get.ready] chdone[s.spiffe.readyCh]
 //@   ensures [C19.get.initok] s.spiffe.initok ==> (result != nil && result1 == nil)
+//@   ensures [C19.get.failed] s.spiffe.initfail ==> (result == nil && result1 != nil)
 //@   at recv#0 assert [C19.ready.nolock] chdone[s.spiffe.readyCh] || !held(s.spiffe.lock)
+//@   at recv#0 assert [C19.get.waits] arg0 == s.spiffe.readyCh
 //@   at recv#0 ghost chdone = update(chdone, s.spiffe.readyCh, true)
 //@   at call RLock#0 label R
 //@   replay template spiffeready
 //@   replay val ready = chdone[s.spiffe.readyCh]
 
+// Ready: waits holding no lock; nil means ready, a finished context gives its (non-nil) error.
+// Note: readiness is also signalled when the initial fetch FAILED (readyCh is closed on both paths of Run); the
+// property only says that Ready returns.
 //@ func (*SPIFFE).Ready
 //@   tags C19 C07
 //@   ghost sel int
 //@   requires s != nil && ctx != nil
-//@   modifies chdone
+//@   modifies chdone, ctx.ctxdone
 //@   ensures [C19.ready.ok] sel == 1 ==> (result == nil && chdone[s.readyCh])
+//@   ensures [C19.ready.nil] result == nil ==> chdone[s.readyCh]
+//@   ensures [C19.ready.ctx] sel == 0 ==> result != nil
 //@   at select#0 assert [C19.ready.nolock] chdone[s.readyCh] || !held(s.lock)
+//@   at select#0 assert [C19.ready.waits] arg0 == ctx.donech && arg1 == s.readyCh
 //@   at select#0 ghost sel = res0
 //@   at select#0 ghost chdone = res0 == 1 ? update(chdone, s.readyCh, true) : chdone
+//@   at select#0 ghost ctx.ctxdone = (res0 == 0) || ctx.ctxdone
 
 // fetchIdentityCertificate: the key is generated in this activation and is the one the CSR is signed with, the one
-// that is PEM-encoded and the one in the returned SVID; when a dir is configured the map handed to dir.Write is
-// exactly {key.pem, cert.pem, ca.pem} built from this activation's key, the chain just received and the trust
-// anchors just read; an empty chain is an error. currentSVID is not touched (it is lock-protected and no lock is taken).
+// that is PEM-encoded and the one in the returned SVID; when a dir is configured, every successful fetch has handed
+// exactly one file set to dir.Write: exactly three files, built from this activation's key, the chain just received
+// and the trust anchors just read (the names key.pem / cert.pem / ca.pem are taken from the code: the statement names
+// no files and the doc comment of Options.WriteIdentityToFile names others, tls.cert / tls.key); an empty chain is
+// an error, so is a chain with a nil entry; a failed fetch leaves the published file set alone
+// ([C19.fetch.err.undisturbed]; failed before the repair 27f5c05 of dir.Write, which reported a failed clean-up of
+// the previous version after it had switched the target); after a successful one the target leads to a new version
+// directory whose three files are this activation's ([C19.fetch.published*], from dir.Write's contract).
+// currentSVID is not touched (it is lock-protected and no lock is taken). The function runs under Run's write lock
+// while readiness is pending: it takes no lock and waits on no channel ([C19.fetch.nowait]).
 //@ func (*SPIFFE).fetchIdentityCertificate
 //@   tags C19 C07
 //@   ghost gkey ref
@@ -76,15 +108,25 @@ package spiffe
 //@   ghost gpk slice
 //@   ghost gcert slice
 //@   ghost gca slice
+//@   ghost nw int
 //@   requires s != nil && inv(s) && ctx != nil
-//@   requires s.dir != nil ==> (invexcept(s.dir, "live") && fsCI(fsExists, fsIsLink, fsLink, fsIsDir, fsComplete, s.dir.target, s.dir.base))
+//@   requires s.dir != nil ==> (inv(s.dir) && fsCI(fsExists, fsIsLink, fsLink, fsIsDir, fsComplete, s.dir.target, s.dir.base))
 //@   modifies fsExists, fsIsLink, fsLink, fsIsDir, fsSrc, fsComplete, s.dir.prev
 //@   ensures [C19.fetch.err] result1 != nil ==> result == nil
 //@   ensures [C19.fetch.ok] result1 == nil ==> (result != nil && fresh(result) && len(result.Certificates) > 0 && result.Certificates[0] != nil)
+//@   ensures [C19.fetch.ok.all] result1 == nil ==> (forall j :: (0 <= j && j < len(result.Certificates)) ==> result.Certificates[j] != nil)
 //@   ensures [C19.fetch.key] result1 == nil ==> (fresh(gkey) && result.PrivateKey == box(gkey, "*crypto/ecdsa.PrivateKey") && result.Certificates == gchain)
-//@   ensures [C19.fetch.dir] s.dir != nil ==> (invexcept(s.dir, "live") && fsCI(fsExists, fsIsLink, fsLink, fsIsDir, fsComplete, s.dir.target, s.dir.base))
+//@   ensures [C19.fetch.dir] s.dir != nil ==> (inv(s.dir) && fsCI(fsExists, fsIsLink, fsLink, fsIsDir, fsComplete, s.dir.target, s.dir.base))
 //@   ensures [C19.fetch.dirinv] (s.dir != nil && result1 == nil) ==> inv(s.dir)
+//@   ensures [C19.fetch.published] (s.dir != nil && result1 == nil) ==> (nw == 1 && s.dir.prev != nil && fsExists[s.dir.target] && fsIsLink[s.dir.target] && fsComplete[*s.dir.prev] && !old(fsExists)[*s.dir.prev])
+//@   ensures [C19.fetch.published.files] (s.dir != nil && result1 == nil) ==> (fsSrc[pjoin(*s.dir.prev, "key.pem")] == gpk && fsSrc[pjoin(*s.dir.prev, "cert.pem")] == gcert && fsSrc[pjoin(*s.dir.prev, "ca.pem")] == gca
+//@        && fsExists[pjoin(*s.dir.prev, "key.pem")] && fsExists[pjoin(*s.dir.prev, "cert.pem")] && fsExists[pjoin(*s.dir.prev, "ca.pem")])
+//@   ensures [C19.fetch.oneset] nw <= 1 && (s.dir == nil ==> nw == 0)
+//@   ensures [C19.fetch.err.undisturbed] (s.dir != nil && result1 != nil) ==> (fsExists[s.dir.target] == old(fsExists[s.dir.target]) && fsLink[s.dir.target] == old(fsLink[s.dir.target]))
+//@   loop 0 invariant -1 <= rangeindex && rangeindex < len(workloadcert) && (forall j :: (0 <= j && j <= rangeindex) ==> workloadcert[j] != nil)
+//@   loop 0 decreases len(workloadcert) - rangeindex
 //@   at call ecdsa.GenerateKey#0 ghost gkey = res0
+//@   at call ecdsa.GenerateKey#0 ghost nw = 0
 //@   at before call x509.CreateCertificateRequest#0 assert [C19.fetch.csr.key] arg2 == box(gkey, "*crypto/ecdsa.PrivateKey")
 //@   at call RequestSVIDFn#0 ghost gchain = res0
 //@   at before call RequestSVIDFn#0 assert [C19.fetch.csr.sent] arg1 == call_CreateCertificateRequest_0_csr
@@ -93,30 +135,45 @@ package spiffe
 //@   at before call pem.EncodeX509Chain#0 assert [C19.fetch.pem.chain] arg0 == gchain
 //@   at call pem.EncodeX509Chain#0 ghost gcert = res0
 //@   at call CurrentTrustAnchors#0 ghost gca = res0
-//@   at before call Write#0 assert [C19.fetch.fileset] len(arg1) == 3 && haskey(arg1, "key.pem") && haskey(arg1, "cert.pem") && haskey(arg1, "ca.pem")
+//@   at before call Write assert [C19.fetch.fileset] arg0 == s.dir && len(arg1) == 3 && haskey(arg1, "key.pem") && haskey(arg1, "cert.pem") && haskey(arg1, "ca.pem")
 //@        && arg1["key.pem"] == gpk && arg1["cert.pem"] == gcert && arg1["ca.pem"] == gca
-//@   at before call Write#0 assume psimple("key.pem") && psimple("cert.pem") && psimple("ca.pem")
+//@   at call Write ghost nw = nw + 1
+//@   at every call Lock assert [C19.fetch.nowait] false
+//@   at every call RLock assert [C19.fetch.nowait] false
+//@   at every recv assert [C19.fetch.nowait] false
+//@   at every send assert [C19.fetch.nowait] false
+//@   at every select assert [C19.fetch.nowait] false
 
 // Run: the goroutine that wins the CAS closes readyCh exactly once, on both paths, before it releases the write
-// lock; currentSVID is written iff the fetch succeeded; otherwise the (wrapped) error is returned.
+// lock; currentSVID is written iff the fetch succeeded; otherwise the (wrapped) error is returned and currentSVID
+// stays nil for good (initfail); after a good fetch the rotation is started, with no lock held and the caller's ctx.
+// `running` is never reset (a second Run cannot close readyCh again). Run itself waits on no channel ([C19.run.nowait]:
+// between taking the write lock and closing readyCh nothing but the fetch can delay it).
 //@ func (*SPIFFE).Run
 //@   tags C19 C07
 //@   ghost ncl int
 //@   ghost ferr bool
+//@   ghost rot bool
 //@   requires s != nil && inv(s) && ctx != nil
-//@   requires s.running.v == 0 ==> !chdone[s.readyCh]
-//@   requires s.dir != nil ==> (invexcept(s.dir, "live") && fsCI(fsExists, fsIsLink, fsLink, fsIsDir, fsComplete, s.dir.target, s.dir.base))
+//@   requires s.running.v == 0 ==> (!chdone[s.readyCh] && !s.initfail)
+//@   requires s.dir != nil ==> (inv(s.dir) && fsCI(fsExists, fsIsLink, fsLink, fsIsDir, fsComplete, s.dir.target, s.dir.base))
 //@   ensures [C19.run.second] old(s.running.v) != 0 ==> (result != nil && chdone == old(chdone))
+//@   ensures [C19.run.running] s.running.v != 0
 //@   ensures [C19.run.once] old(s.running.v) == 0 ==> (ncl == 1 && chdone[s.readyCh])
 //@   ensures [C19.run.err] (old(s.running.v) == 0 && ferr) ==> (result != nil && at(U, s.currentSVID) == nil && !s.initok == !old(s.initok))
-//@   ensures [C19.run.ok] (old(s.running.v) == 0 && !ferr) ==> (result == nil && s.initok)
+//@   ensures [C19.run.failed] (old(s.running.v) == 0 && ferr) ==> s.initfail
+//@   ensures [C19.run.ok] (old(s.running.v) == 0 && !ferr) ==> (result == nil && s.initok && !s.initfail)
+//@   ensures [C19.run.rotated] (old(s.running.v) == 0 && !ferr) ==> rot
 //@   at call CompareAndSwap#0 ghost ncl = 0
+//@   at call CompareAndSwap#0 ghost rot = false
 //@   at call Lock#0 label L
 //@   at call fetchIdentityCertificate#0 ghost ferr = res1 != nil
-//@   at close#0 assert [C19.run.close.fresh] !chdone[s.readyCh] && heldw(s.lock) && ncl == 0
+//@   at before call fetchIdentityCertificate#0 assert [C19.run.fetch.ctx] arg0 == s && arg1 == ctx && ncl == 0
+//@   at close#0 assert [C19.run.close.fresh] arg0 == s.readyCh && !chdone[s.readyCh] && heldw(s.lock) && ncl == 0
 //@   at close#0 ghost chdone = update(chdone, s.readyCh, true)
 //@   at close#0 ghost ncl = ncl + 1
-//@   at close#1 assert [C19.run.close.fresh] !chdone[s.readyCh] && heldw(s.lock) && ncl == 0
+//@   at close#0 ghost s.initfail = true
+//@   at close#1 assert [C19.run.close.fresh] arg0 == s.readyCh && !chdone[s.readyCh] && heldw(s.lock) && ncl == 0
 //@   at close#1 ghost chdone = update(chdone, s.readyCh, true)
 //@   at close#1 ghost ncl = ncl + 1
 //@   at store currentSVID#0 assert [C19.run.publish] !ferr && arg0 == call_fetchIdentityCertificate_0_result
@@ -124,48 +181,87 @@ package spiffe
 //@   at before call Unlock#0 label U
 //@   at before call Unlock#0 assert [C19.run.closed.before.unlock] chdone[s.readyCh] && ncl == 1 && ferr && s.currentSVID == at(L, s.currentSVID)
 //@   at before call Unlock#1 assert [C19.run.closed.before.unlock] chdone[s.readyCh] && ncl == 1 && !ferr && s.currentSVID == call_fetchIdentityCertificate_0_result
+//@   at every recv assert [C19.run.nowait] false
+//@   at every send assert [C19.run.nowait] false
+//@   at every select assert [C19.run.nowait] false
+//@   at before call runRotation#0 assert [C19.run.rotates] !ferr && ncl == 1 && !held(s.lock) && arg0 == s && arg1 == ctx
+//@   at call runRotation#0 ghost rot = true
 
-// runRotation (select = nondeterministic choice). gnow is the clock reading the wait was computed from, woke the
-// reading after a wake-up. due: a wake-up found now >= renewTime and no fetch has been requested yet; owed: a fetch
-// failed and the 10 s wait has not been armed yet. Both are false at every loop head and at every return.
+// runRotation (select = nondeterministic choice). gnow is the clock reading the wait was computed from.
+// due: a wake-up found now >= renewTime and no fetch has been requested yet. owed: a fetch failed and the 10 s wait
+// has not been armed yet. unpub: a fetch succeeded and its SVID has not been stored in currentSVID yet. All three are
+// false at every loop head and at every return. retry: a fetch failed and no fetch has been requested since; gdue:
+// the clock reading at which the renewal that failed had been found due. The retry law: while retry, renewTime has
+// not moved (gdue >= renewTime), so - unless the clock stepped back - the wait armed after the 10 s is non-positive
+// and the wake-up finds the renewal due again ([C19.rotate.retry.*]). The loop ends only because ctx ended
+// ([C19.rotate.exit.ctx]). Not proved: that the clock is monotone, and when a timer channel delivers.
 //@ func (*SPIFFE).runRotation
 //@   tags C19 C07
 //@   ghost gnow int
 //@   ghost due bool
 //@   ghost owed bool
-//@   requires s != nil && inv(s) && ctx != nil && s.initok && chdone[s.readyCh]
-//@   requires s.dir != nil ==> (invexcept(s.dir, "live") && fsCI(fsExists, fsIsLink, fsLink, fsIsDir, fsComplete, s.dir.target, s.dir.base))
+//@   ghost unpub bool
+//@   ghost retry bool
+//@   ghost gdue int
+//@   ghost cd bool
+//@   requires s != nil && inv(s) && ctx != nil && s.initok && !s.initfail && chdone[s.readyCh]
+//@   requires s.dir != nil ==> (inv(s.dir) && fsCI(fsExists, fsIsLink, fsLink, fsIsDir, fsComplete, s.dir.target, s.dir.base))
 //@   modifies fsExists, fsIsLink, fsLink, fsIsDir, fsSrc, fsComplete, s.dir.prev, s.currentSVID
 //@   at call RLock#0 ghost due = false
 //@   at call RLock#0 ghost owed = false
-//@   loop 0 invariant s == old(s) && ctx == old(ctx) && inv(s) && s.initok && chdone[s.readyCh] && nolocks() && cert != nil
-//@   loop 0 invariant s.dir != nil ==> (invexcept(s.dir, "live") && fsCI(fsExists, fsIsLink, fsLink, fsIsDir, fsComplete, s.dir.target, s.dir.base))
+//@   at call RLock#0 ghost unpub = false
+//@   at call RLock#0 ghost retry = false
+//@   at call RLock#0 ghost cd = false
+//@   at before call RUnlock#0 assert [C19.rotate.first] cert == s.currentSVID.Certificates[0]
+//@   loop 0 invariant s == old(s) && ctx == old(ctx) && inv(s) && s.initok && !s.initfail && chdone[s.readyCh] && nolocks() && cert != nil
+//@   loop 0 invariant s.dir != nil ==> (inv(s.dir) && fsCI(fsExists, fsIsLink, fsLink, fsIsDir, fsComplete, s.dir.target, s.dir.base))
 //@   loop 0 invariant [C19.rotate.pending] !due && !owed
+//@   loop 0 invariant [C19.rotate.latest] !unpub
+//@   loop 0 invariant [C19.rotate.retry.due] retry ==> gdue >= unixNano(renewTime)
 //@   loop 0 invariant [C19.rotate.together] (0 <= unixNano(*cert.NotAfter) - unixNano(*cert.NotBefore) && unixNano(*cert.NotAfter) - unixNano(*cert.NotBefore) <= 9223372036854775807) ==> unixNano(renewTime) == unixNano(*cert.NotBefore) + (unixNano(*cert.NotAfter) - unixNano(*cert.NotBefore)) / 2
+//@   loop 0 invariant [C19.rotate.together.nolater] 0 <= unixNano(*cert.NotAfter) - unixNano(*cert.NotBefore) ==> unixNano(renewTime) <= unixNano(*cert.NotBefore) + (unixNano(*cert.NotAfter) - unixNano(*cert.NotBefore)) / 2
 //@   at call Now#0 ghost gnow = unixNano(res0)
 //@   at before call After#0 assert [C19.rotate.wait] (-9223372036854775808 <= unixNano(renewTime) - gnow && unixNano(renewTime) - gnow <= 9223372036854775807) ==> arg1 == min(60000000000, unixNano(renewTime) - gnow)
+//@   at before call After#0 assert [C19.rotate.wait.bound] arg1 <= 60000000000 && (-9223372036854775808 <= unixNano(renewTime) - gnow ==> arg1 <= unixNano(renewTime) - gnow)
+//@   at before call After#0 assert [C19.rotate.retry.nowait] (retry && gnow >= gdue) ==> arg1 <= 0
+//@   at select#0 assert [C19.rotate.waits] arg0 == call_After_0_result && arg1 == ctx.donech && !held(s.lock)
+//@   at select#0 ghost cd = res0 == 1
 //@   at call Before#0 ghost due = !res0
 //@   at call Before#0 assert [C19.rotate.due] due <==> unixNano(arg0) >= unixNano(renewTime)
-//@   at before call fetchIdentityCertificate#0 assert [C19.rotate.fetch.when] due && !held(s.lock)
+//@   at call Before#0 assert [C19.rotate.retry.fetch] (retry && unixNano(arg0) >= gdue) ==> due
+//@   at call Before#0 ghost gdue = due ? unixNano(arg0) : gdue
+//@   at before call fetchIdentityCertificate#0 assert [C19.rotate.fetch.when] due && !held(s.lock) && arg0 == s && arg1 == ctx
 //@   at call fetchIdentityCertificate#0 ghost due = false
 //@   at call fetchIdentityCertificate#0 ghost owed = res1 != nil
+//@   at call fetchIdentityCertificate#0 ghost retry = res1 != nil
+//@   at call fetchIdentityCertificate#0 ghost unpub = res1 == nil
 //@   at before call After#1 assert [C19.rotate.retry] owed && arg1 == 10000000000
 //@   at call After#1 ghost owed = false
+//@   at select#1 assert [C19.rotate.retry.waits] arg0 == call_After_1_result && arg1 == ctx.donech && !held(s.lock)
+//@   at select#1 ghost cd = res0 == 1
 //@   at before call Lock#0 assert [C19.rotate.publish.ok] !owed && call_fetchIdentityCertificate_0_result1 == nil
-//@   at store currentSVID#0 assert [C19.rotate.publish] heldw(s.lock) && !owed && arg0 == call_fetchIdentityCertificate_0_result && arg0 != nil
+//@   at store currentSVID#0 assert [C19.rotate.publish] heldw(s.lock) && !owed && unpub && arg0 == call_fetchIdentityCertificate_0_result && arg0 != nil
+//@   at store currentSVID#0 ghost unpub = false
 //@   at before call Unlock#0 assert [C19.rotate.together.locked] s.currentSVID == call_fetchIdentityCertificate_0_result && cert == s.currentSVID.Certificates[0]
-//@   at return assert [C19.rotate.pending.exit] !due && !owed
+//@   at return assert [C19.rotate.pending.exit] !due && !owed && !unpub
+//@   at return assert [C19.rotate.exit.ctx] cd
 
 //@ func (*SPIFFE).SVIDSource
 //@   tags C19 C07
 //@   modifies nothing
 //@   ensures result != nil
+//@   ensures [C19.source] typeis(result, "*github.com/dapr/kit/crypto/spiffe.svidSource") && unbox(result, "*github.com/dapr/kit/crypto/spiffe.svidSource").spiffe == s
 
+// New. Configuration assumptions (preconditions, not checked by the real New, which accepts anything): a logger and
+// a signer are given; a target directory comes with a trust-anchor source and a path that names an entry (dir.New's
+// precondition, C18). Without them Run panics under the write lock with readyCh open (nil dereference) - outside the
+// contract.
 //@ func New
 //@   tags C19 C07
-//@   requires opts.Log != nil
-//@   requires opts.WriteIdentityToFile != nil ==> (pclean(*opts.WriteIdentityToFile) && psimple(pbase(*opts.WriteIdentityToFile)) && opts.TrustAnchors != nil)
-//@   ensures [C19.new] result != nil && fresh(result) && inv(result) && result.currentSVID == nil && result.running.v == 0 && !result.initok && !chdone[result.readyCh]
+//@   requires opts.Log != nil && opts.RequestSVIDFn != nil
+//@   requires opts.WriteIdentityToFile != nil ==> (psimple(pbase(pcl(*opts.WriteIdentityToFile))) && opts.TrustAnchors != nil)
+//@   ensures [C19.new] result != nil && fresh(result) && inv(result) && result.currentSVID == nil && result.running.v == 0 && !result.initok && !result.initfail && !chdone[result.readyCh]
 //@   ensures [C19.new.dir] result.dir != nil ==> inv(result.dir)
 //@   at store readyCh#0 ghost chdone = update(chdone, arg0, false)
 //@   at return ghost result.initok = false
+//@   at return ghost result.initfail = false
